@@ -66,6 +66,9 @@ def check(run):
         metas.append(None)
         nontrivial += 1
     stats = asmprops.process(run, progs, evaluator, metas, chunk=250)
+    # macro half (x86-64): a label as memory operand must be referenced exactly, whatever follows the displacement inside the instruction
+    import x64lbl
+    stats["x64_label_operands"] = x64lbl.sweep(run)
     run.coverage["evaluations"] = len(progs)
     run.coverage["distinct_nontrivial"] = nontrivial
     run.coverage["traces_validated_against_impl"] = stats["requests"]
